@@ -154,6 +154,18 @@ func NewSessionCache() *SessionCache {
 func (c *SessionCache) Store(entry *SessionEntry) {
 	c.mu.Lock()
 	defer c.mu.Unlock()
+	// Replacing a session with a different one under the same id (a re-imported
+	// claim, or a peer that hands out an id already in use) starts a new
+	// registration: the command mappings filed for the replaced session belong to
+	// its address and tag, not necessarily to the new one's, so they go with it.
+	// The new session's owner maps its own commands after storing it.
+	if old, ok := c.sessions[entry.id]; ok && old != entry {
+		for key, sessID := range c.commandMap {
+			if sessID == entry.id {
+				delete(c.commandMap, key)
+			}
+		}
+	}
 	c.sessions[entry.id] = entry
 }
 
